@@ -74,7 +74,8 @@ def run(prop, tier):
     cap = plan.get("time_cap")
     deadline = t0 + cap if cap else None
 
-    agg = dict(evaluations=0, counters=Counter(), keys=set(), verdicts=Counter(), inconclusive=Counter(), features=Counter(), samples=[], violations=[], kf_seen=Counter(), streams=Counter())
+    agg = dict(evaluations=0, counters=Counter(), keys=set(), verdicts=Counter(), inconclusive=Counter(), features=Counter(), samples=[], violations=[], kf_seen=Counter(), streams=Counter(), watchdog_cases=[])
+    rerun = []
     max_samples = plan.get("max_samples", 4)
 
     def on_result(r):
@@ -85,6 +86,8 @@ def run(prop, tier):
             agg["counters"][k] += v
         if r.get("verdict") == "inconclusive":
             agg["inconclusive"][r.get("reason", "?")] += 1
+            if r.get("reason") == "watchdog":
+                agg["watchdog_cases"].append((r.get("stream"), r.get("i"), dict(stream=r.get("stream"))))
         k = r.get("key")
         if k:
             if isinstance(k, list):
@@ -111,6 +114,22 @@ def run(prop, tier):
     meta = dict(watchdog=0, worker_deaths=0, truncated_batches=0, batches=0)
     if tasks:
         _, meta = pool.run_tasks(prop, tasks, nworkers=plan.get("nworkers", 14), timeout=plan.get("timeout", 60.0), env_extra=plan.get("env_extra"), deadline=deadline, on_result=on_result)
+
+    # cases that hit the watchdog are re-run alone; only a reproducible stall is a violation (and only where the
+    # property is about returning at all)
+    if getattr(mod, "RERUN_WATCHDOG", False) and agg["watchdog_cases"]:
+        for (stream, idx, task) in agg["watchdog_cases"][:6]:
+            _, m2 = pool.run_tasks(prop, [dict(task, lo=idx, hi=idx + 1)], nworkers=1, timeout=150.0, env_extra=plan.get("env_extra"), on_result=lambda r: rerun.append(r))
+        for r in rerun:
+            if r.get("verdict") == "inconclusive" and r.get("reason") == "watchdog":
+                case = None
+                try:
+                    case = mod.gen_case(dict(stream=r["stream"]), r["i"])
+                except Exception:
+                    pass
+                agg["violations"].append(dict(signature=dict(monitor="watchdog", event="reproducible-stall"), triggers=[], detail="no return within 60 s and again within 150 s when run alone", case=case, case_id=r.get("id")))
+            else:
+                agg["counters"]["watchdog_rerun_returned"] += 1
 
     # re-execute the witnesses of the findings that list this property
     kf_lines = []
